@@ -11,6 +11,11 @@ package main
 //   spec B : the real /bin/sh (dash) and bash, given `printf '%s\0' X <impl command>`, print exactly those words
 //   corr D : the shell model itself: wherever sh_words(line) = Some ws, dash and bash agree (on expansions and on
 //            random lines over blanks, ', \ and ordinary characters)
+//   spec F : every f-placeholder of the template names a temp file that holds exactly the values THIS placeholder stands
+//            for, each followed by the print separator (file_holds_own_values; Coq spec file_text, op 1214; for field
+//            ranges the values are the model's reading of the placeholder expanded on its own, op 1212)
+//   kinds term and live (c12term.go): the same checks at the level of the running finder (buildPlusList; the fzf
+//            process on a pty)
 // Shell runs are batched (50 snippets per process).
 
 import (
@@ -20,6 +25,7 @@ import (
 	"fmt"
 	"os"
 	"os/exec"
+	"regexp"
 	"strconv"
 	"strings"
 	"time"
@@ -54,6 +60,15 @@ type c12Case struct {
 	Name      string    `json:"name,omitempty"`  // env
 	Value     string    `json:"value,omitempty"` // env
 	Line      string    `json:"line,omitempty"`  // line: a raw command line for the shell model
+	// kind term (hook: buildPlusList + Terminal.replacePlaceholder) and live (the fzf process on a pty): the finder's state
+	Items    []c12Item `json:"items,omitempty"`     // the list in display order (live: idx = position in the input)
+	Cy       int       `json:"cy,omitempty"`        // term: list position of the cursor (outside the list: no current item)
+	SelOrder []int     `json:"sel_order,omitempty"` // term: list positions, in the order they were selected
+	Acts     []string  `json:"acts,omitempty"`      // live: actions run before the command
+	Mode     string    `json:"mode,omitempty"`      // live: execute-silent | execute | execute-multi | transform-header | preview | reload | become
+	Shell    string    `json:"shell,omitempty"`     // live: --with-shell ("" = $SHELL -c = /bin/sh -c)
+	Search   bool      `json:"search,omitempty"`    // live: the query filters the list (otherwise --disabled when a query is given)
+	FilePhs  []string  `json:"file_phs,omitempty"`  // live: f-placeholders, each read with cat in the same command
 }
 
 // ---- real shells ----
@@ -74,6 +89,7 @@ type c12State struct {
 	batchNo   int
 	shells    []string
 	now       bool // replay: run shell jobs immediately
+	liveFails int  // live sessions that ended in a disagreement (no more sessions after 3)
 }
 
 const c12Sentinel = "X"
@@ -381,11 +397,11 @@ func (s *c12State) checkTemplate(cs c12Case) {
 		rep.Disagreement(Disagreement{Kind: "spec", Name: "no_crash", Input: cs, Impl: "panic: " + pan, Expect: "no panic"})
 		return
 	}
+	read := c12FileReader(out, temps)
 	files := []string{}
 	for _, t := range temps {
-		b, _ := os.ReadFile(t)
-		files = append(files, string(b))
-		os.Remove(t)
+		b, _ := read(t)
+		files = append(files, b)
 	}
 	// corr: model == impl on the command line and the temp-file contents
 	mv := c.Model.Call(1201, L(c12Params(cs, action), Bytes(cs.Template), Strs(temps)))
@@ -401,96 +417,7 @@ func (s *c12State) checkTemplate(cs c12Case) {
 	key, _ := json.Marshal(cs)
 	nontrivial := false
 	if cs.Kind == "tpl" && !cs.Fish {
-		// segments of the template: literal text / words of each placeholder
-		segs := []Val{}
-		onlyLitEsc := true
-		expectOut := ""
-		fileNo := 0
-		quotedMeta := false
-		for _, p := range cs.Parts {
-			switch p.T {
-			case "lit":
-				segs = append(segs, c12Seg(true, p.S, nil))
-				expectOut += p.S
-			case "esc":
-				segs = append(segs, c12Seg(true, p.S, nil))
-				expectOut += p.S
-			default:
-				onlyLitEsc = false
-				if ws, ok := c12Meaning(cs, p.S); ok {
-					segs = append(segs, c12Seg(false, "", ws))
-					for _, w := range ws {
-						if c12HasMeta(w) {
-							quotedMeta = true
-						}
-					}
-					continue
-				}
-				// fields, {q:N}, raw, file, action, invalid ranges: the value comes from the model (field selection
-				// itself is C10's subject); the round trip of that value is still checked here
-				tn := []string{"?"}
-				if fileNo < len(temps) {
-					tn = []string{temps[fileNo]}
-				}
-				sv := c.Model.Call(1204, L(c12Params(cs, action), Bytes(p.S), Strs(tn)))
-				if !sv.IsList || len(sv.L) != 1 || !sv.L[0].IsList || len(sv.L[0].L) != 2 {
-					segs = nil
-					break
-				}
-				o := sv.L[0]
-				if o.L[0].I == 0 {
-					if fileNo < len(temps) && o.L[1].Str() == tn[0] {
-						fileNo++
-					}
-					segs = append(segs, c12Seg(true, o.L[1].Str(), nil))
-				} else {
-					ws := []string{}
-					for _, ev := range o.L[1].L {
-						ws = append(ws, ev.L[1].Str())
-						if c12HasMeta(ev.L[1].Str()) {
-							quotedMeta = true
-						}
-					}
-					segs = append(segs, c12Seg(false, "", ws))
-				}
-			}
-			if segs == nil {
-				break
-			}
-		}
-		if onlyLitEsc {
-			rep.SpecChecks++
-			rep.Count("escaped_literal_checks")
-			if out != expectOut {
-				rep.Disagreement(Disagreement{Kind: "spec", Name: "escaped_literal", Input: cs, Impl: out, Expect: expectOut})
-			}
-		}
-		if segs != nil {
-			want, ok := c12OptWords(c.Model.Call(1203, L(segs...)))
-			if ok {
-				rep.SpecChecks++
-				rep.Count("roundtrip_checks")
-				got, gok := s.shWords(out)
-				if !gok || !c12SameWords(got, want) {
-					var impl interface{} = got
-					if !gok {
-						impl = fmt.Sprintf("command %q is not made of plain shell words (sh_words = None)", out)
-					}
-					s.specOrCorr(cs, "expansion_roundtrip", c12Printf(out), impl, want)
-				} else {
-					nontrivial = quotedMeta
-					for _, w := range want {
-						for i := 0; i < len(w); i++ {
-							s.bytesSeen[w[i]] = true
-						}
-					}
-					s.shellJob(c12ShellJob{cs: cs, snippet: c12Printf(out), want: want, kind: "spec", name: "shell_roundtrip"})
-				}
-			} else {
-				rep.Count("template_not_neutral")
-				s.shellModelCheck(cs, out)
-			}
-		}
+		nontrivial = s.specExpansion(cs, cs, out, temps, action, read)
 	} else if !cs.Fish {
 		s.shellModelCheck(cs, out)
 	}
@@ -509,6 +436,220 @@ func (s *c12State) checkTemplate(cs c12Case) {
 	if len(temps) > 0 {
 		rep.Count("with_temp_file")
 	}
+}
+
+// names of temp files as fzf makes them (os.CreateTemp("", "fzf-temp-*") under $TMPDIR)
+func c12TempNames(out string) []string {
+	dir := os.Getenv("TMPDIR")
+	if dir == "" {
+		dir = os.TempDir()
+	}
+	return regexp.MustCompile(regexp.QuoteMeta(strings.TrimRight(dir, "/"))+"/fzf-temp-[0-9]+").FindAllString(out, -1)
+}
+
+// c12FileReader reads every temp file the command line names or the implementation reported, removes them, and
+// returns a lookup by name
+func c12FileReader(out string, temps []string) func(string) (string, bool) {
+	m := map[string]string{}
+	for _, n := range append(append([]string{}, temps...), c12TempNames(out)...) {
+		if _, seen := m[n]; seen {
+			continue
+		}
+		if b, err := os.ReadFile(n); err == nil {
+			m[n] = string(b)
+		}
+	}
+	for n := range m {
+		os.Remove(n)
+	}
+	return func(n string) (string, bool) { b, ok := m[n]; return b, ok }
+}
+
+// what the file of an f-placeholder over whole items ({f} {+f} {nf} {+nf} {fn} {+sf} ...) must hold, read off the
+// property text: the items the placeholder ranges over, as texts or ordinals; ok=false: no independent reading
+func c12FileMeaning(eff c12Case, ph string) ([]string, bool) {
+	if len(ph) < 3 || ph[0] != '{' || ph[len(ph)-1] != '}' {
+		return nil, false
+	}
+	in := ph[1 : len(ph)-1]
+	if strings.Trim(in, "+sfrn") != "" || !strings.Contains(in, "f") {
+		return nil, false
+	}
+	its := []c12Item{}
+	if strings.Contains(in, "+") || eff.ForcePlus {
+		its = eff.Sel
+	} else if eff.Cur != nil {
+		its = []c12Item{*eff.Cur}
+	}
+	vals := []string{}
+	for _, it := range its {
+		if strings.Contains(in, "n") {
+			if it.Idx == -2147483648 {
+				return nil, false
+			}
+			vals = append(vals, strconv.Itoa(int(it.Idx)))
+		} else {
+			vals = append(vals, it.Text)
+		}
+	}
+	return vals, true
+}
+
+// c12Segments: the template of eff read piece by piece: literal text, or the words a placeholder stands for.
+// names: the temp-file names found in the command line, in order (one per f-placeholder).
+type c12Segs struct {
+	segs       []Val
+	onlyLitEsc bool
+	expectOut  string
+	quotedMeta bool
+	fileWant   []string // expected content per f-placeholder, in template order
+	filePh     []string
+	fileSeg    []int // index in segs of each f-placeholder
+	ambiguous  bool // an f-placeholder is directly followed by text that may start with a digit: its name cannot be cut out reliably
+	known      bool // false: some placeholder has no reading
+}
+
+func (s *c12State) segments(cs, eff c12Case, action string, names []string, temps []string) c12Segs {
+	c := s.c
+	r := c12Segs{onlyLitEsc: true, known: true}
+	params := c12Params(eff, action)
+	for i, p := range eff.Parts {
+		switch p.T {
+		case "lit", "esc":
+			r.segs = append(r.segs, c12Seg(true, p.S, nil))
+			r.expectOut += p.S
+			continue
+		}
+		r.onlyLitEsc = false
+		if ws, ok := c12Meaning(eff, p.S); ok {
+			r.segs = append(r.segs, c12Seg(false, "", ws))
+			for _, w := range ws {
+				r.quotedMeta = r.quotedMeta || c12HasMeta(w)
+			}
+			continue
+		}
+		// an f-placeholder?  (own_files: the files this placeholder writes when expanded on its own)
+		fv := c.Model.Call(1212, L(params, Bytes(p.S)))
+		if fv.IsList && len(fv.L) == 1 && fv.L[0].IsList {
+			want := fv.L[0].Str()
+			if vals, ok := c12FileMeaning(eff, p.S); ok {
+				own := c.Model.Call(1214, L(Bytes(eff.Printsep), Strs(vals))).Str() // spec file_text
+				if own != want {
+					s.corr(Disagreement{Kind: "corr", Name: "corr:C12.file_meaning", Input: cs, Impl: want, Expect: own})
+				}
+				want = own
+			}
+			r.fileSeg = append(r.fileSeg, len(r.segs))
+			r.fileWant = append(r.fileWant, want)
+			r.filePh = append(r.filePh, p.S)
+			if i+1 < len(eff.Parts) {
+				n := eff.Parts[i+1]
+				if n.T == "ph" || (n.T == "lit" && n.S != "" && n.S[0] >= '0' && n.S[0] <= '9') {
+					r.ambiguous = true
+				}
+			}
+			r.segs = append(r.segs, c12Seg(true, "?", nil))
+			continue
+		}
+		// fields, {q:N}, raw, action, invalid ranges: the value comes from the model (field selection itself is C10's
+		// subject); the round trip of that value is still checked here
+		sv := c.Model.Call(1204, L(params, Bytes(p.S), Strs([]string{"?"})))
+		if !sv.IsList || len(sv.L) != 1 || !sv.L[0].IsList || len(sv.L[0].L) != 2 {
+			r.known = false
+			return r
+		}
+		o := sv.L[0]
+		if o.L[0].I == 0 {
+			r.segs = append(r.segs, c12Seg(true, o.L[1].Str(), nil))
+		} else {
+			ws := []string{}
+			for _, ev := range o.L[1].L {
+				ws = append(ws, ev.L[1].Str())
+				r.quotedMeta = r.quotedMeta || c12HasMeta(ev.L[1].Str())
+			}
+			r.segs = append(r.segs, c12Seg(false, "", ws))
+		}
+	}
+	// the name each f-placeholder became: cut out of the command line; when a name is glued to text that may start
+	// with a digit, the names the implementation reported, in order
+	if r.ambiguous {
+		names = temps
+	}
+	for k, i := range r.fileSeg {
+		if k < len(names) {
+			r.segs[i] = c12Seg(true, names[k], nil)
+		}
+	}
+	return r
+}
+
+// specExpansion: the property on one expansion.  cs is the case as generated (what a replay needs), eff the same
+// case with the items the placeholders range over (cur, sel) made explicit; out is the implementation's command
+// line, read gives the content of the temp files it names.
+func (s *c12State) specExpansion(cs, eff c12Case, out string, temps []string, action string, read func(string) (string, bool)) bool {
+	c, rep := s.c, s.c.Rep
+	names := c12TempNames(out)
+	sg := s.segments(cs, eff, action, names, temps)
+	if sg.onlyLitEsc {
+		rep.SpecChecks++
+		rep.Count("escaped_literal_checks")
+		if out != sg.expectOut {
+			rep.Disagreement(Disagreement{Kind: "spec", Name: "escaped_literal", Input: cs, Impl: out, Expect: sg.expectOut})
+		}
+	}
+	if !sg.known {
+		return false
+	}
+	// every f-placeholder names a file that holds its own values
+	if len(sg.fileWant) > 0 {
+		if sg.ambiguous {
+			rep.Count("file_checks_skipped(name glued to following text)")
+		} else if len(names) != len(sg.fileWant) {
+			rep.SpecChecks++
+			rep.Disagreement(Disagreement{Kind: "spec", Name: "file_holds_own_values", Input: cs,
+				Impl:   fmt.Sprintf("command %q names %d temp files", out, len(names)),
+				Expect: fmt.Sprintf("%d f-placeholders %q, one file each", len(sg.fileWant), sg.filePh)})
+		} else {
+			for k, want := range sg.fileWant {
+				rep.SpecChecks++
+				rep.Count("file_content_checks")
+				got, ok := read(names[k])
+				if !ok || got != want {
+					impl := fmt.Sprintf("%s names %s which holds %q", sg.filePh[k], names[k], got)
+					if !ok {
+						impl = fmt.Sprintf("%s names %s which cannot be read", sg.filePh[k], names[k])
+					}
+					rep.Disagreement(Disagreement{Kind: "spec", Name: "file_holds_own_values", Input: cs, Impl: impl,
+						Expect: fmt.Sprintf("%s: a file holding %q", sg.filePh[k], want)})
+					break
+				}
+			}
+		}
+	}
+	want, ok := c12OptWords(c.Model.Call(1203, L(sg.segs...)))
+	if !ok {
+		rep.Count("template_not_neutral")
+		s.shellModelCheck(cs, out)
+		return false
+	}
+	rep.SpecChecks++
+	rep.Count("roundtrip_checks")
+	got, gok := s.shWords(out)
+	if !gok || !c12SameWords(got, want) {
+		var impl interface{} = got
+		if !gok {
+			impl = fmt.Sprintf("command %q is not made of plain shell words (sh_words = None)", out)
+		}
+		s.specOrCorr(cs, "expansion_roundtrip", c12Printf(out), impl, want)
+		return false
+	}
+	for _, w := range want {
+		for i := 0; i < len(w); i++ {
+			s.bytesSeen[w[i]] = true
+		}
+	}
+	s.shellJob(c12ShellJob{cs: cs, snippet: c12Printf(out), want: want, kind: "spec", name: "shell_roundtrip"})
+	return sg.quotedMeta
 }
 
 func (s *c12State) checkTmux(cs c12Case) {
@@ -575,6 +716,10 @@ func (s *c12State) check(cs c12Case) {
 	switch cs.Kind {
 	case "tpl", "raw":
 		s.checkTemplate(cs)
+	case "term":
+		s.checkTerm(cs)
+	case "live":
+		s.liveOne(cs, nil)
 	case "tmux":
 		s.checkTmux(cs)
 	case "env":
@@ -719,6 +864,10 @@ func c12GenTpl(r *RNG, n int) c12Case {
 	np := r.Range(1, 5)
 	onlyEsc := r.Chance(1, 10)
 	prevLit := false
+	if r.Chance(1, 5) { // several placeholders over the same range that differ only in their flags
+		cs.Parts = c12FamilyParts(r)
+		np = 0
+	}
 	for i := 0; i < np; i++ {
 		k := r.Intn(10)
 		switch {
@@ -824,11 +973,13 @@ func c12GenLine(r *RNG, n int) c12Case {
 }
 
 func c12Gen(r *RNG, n int) c12Case {
-	switch k := r.Intn(20); {
+	switch k := r.Intn(25); {
 	case k < 11:
 		return c12GenTpl(r, n)
 	case k < 14:
 		return c12GenRaw(r, n)
+	case k >= 20:
+		return c12GenTerm(r, n)
 	case k < 16:
 		cs := c12Case{Kind: "tmux"}
 		na := r.Range(1, 6)
@@ -858,7 +1009,7 @@ func c12Gen(r *RNG, n int) c12Case {
 }
 
 func runC12(c *Ctx) {
-	c.Rep.Rule = "templates built from shell-neutral literal text, live and escaped placeholders of every form and flag; item texts / queries over every ASCII byte 1..127, shell metacharacters, newlines, multi-byte runes, 0..5 selected items; tmux argument and export re-quoting; non-trivial = a quoted value containing a shell metacharacter whose expansion passed the Coq spec and was handed to dash and bash; distinct by JSON of the case"
+	c.Rep.Rule = "templates built from shell-neutral literal text, live and escaped placeholders of every form and flag, incl. several placeholders over one range that differ only in their flags (f-placeholders: the file each one names holds its own values); item texts / queries over every ASCII byte 1..127, shell metacharacters, newlines, multi-byte runes, 0..5 selected items; the finder level (kind term: list, cursor position, selection order with 0, 1, 2.. selected items and the cursor on or off the selection, through buildPlusList; kind live: the fzf binary on a pty, random toggle / move / select-all sequences, then one command through execute-silent, execute, execute-multi, transform-header, preview, change-preview, reload or become, argv and temp files read back from the real shell); tmux argument and export re-quoting; non-trivial = a quoted value containing a shell metacharacter whose expansion passed the Coq spec and was handed to dash and bash (or came back from the shell fzf started); distinct by JSON of the case"
 	os.Setenv("TMPDIR", c.Work)
 	c12ShellDir = c.Work
 	st := &c12State{c: c, shells: []string{"/bin/sh", "bash"}, corrSeen: map[string]int{}}
@@ -891,11 +1042,33 @@ func runC12(c *Ctx) {
 			c.Rep.Count("corpus")
 		}
 	}
-	n := c.N(6000, 150000)
+	t0 := time.Now()
+	n := c.N(7500, 187500)
 	for i := 0; i < n; i++ {
 		st.check(c12Gen(c.Rng, i))
 	}
 	st.flush()
+	c.Rep.Extra["generated_cases_wall_s"] = time.Since(t0).Seconds()
+	t0 = time.Now()
+	// the running finder: the fzf binary on a pty
+	scale := c.Scale
+	if scale > 4 {
+		scale = 4
+	}
+	nl := 600 * scale
+	if c.Thorough() {
+		nl = 4000 * scale
+	}
+	live := make([]c12Case, nl)
+	for i := range live {
+		live[i] = c12GenLive(c.Rng, i)
+	}
+	if c.Fzf != "" {
+		st.runLiveBatch(live)
+	} else {
+		c.Rep.Count("live:no_fzf_binary")
+	}
+	c.Rep.Extra["live_sessions_wall_s"] = time.Since(t0).Seconds()
 	c.Rep.Extra["shells"] = st.shells
 	ascii, high := 0, 0
 	for b := 1; b < 256; b++ {
